@@ -302,6 +302,18 @@ func (bc *boundsCtx) byLoop(e ast.Expr, base ast.Expr, need needLen, facts []cfg
 			return "T2 range index over X, base allocated as make(_, len(X))", true
 		}
 	}
+	// `for i := range E` (E an integer expression): inside the body i < E holds like a loop condition
+	for k := len(path) - 1; k >= 0; k-- {
+		rs, ok := path[k].(*ast.RangeStmt)
+		if !ok || core.VarOf(bc.info, rs.Key) != iv || rs.Value != nil {
+			continue
+		}
+		if t := bc.info.TypeOf(rs.X); t != nil {
+			if bt, isBasic := t.Underlying().(*types.Basic); isBasic && bt.Info()&types.IsInteger != 0 && !bc.baseShrinksIn(rs.Body, base) {
+				facts = append(facts, cfgx.Fact{Cond: &ast.BinaryExpr{X: rs.Key, OpPos: rs.X.Pos(), Op: token.LSS, Y: rs.X}, Val: true})
+			}
+		}
+	}
 	// (b) i >= c0 by construction (set to constants, only incremented), c0 + Off >= 0, and a dominating fact that
 	// reads i + a < len(base) (or <=) in linear form
 	lo, hasLo := bc.minStart(iv)
